@@ -835,6 +835,18 @@ theorem tiled_full_tile_counts (tf : TiledFull) (hr : 0 < tf.rows) (hc : 0 < tf.
     tf.ntc = ((tf.totalCols - 1) / tf.cols + 1).toNat ∧ tf.ntr = ((tf.totalRows - 1) / tf.rows + 1).toNat :=
   ⟨tf.ntc_eq hc, tf.ntr_eq hr⟩
 
+/-- **number of channels of a TILED_FULL image, as the library itself derives it** (the decision of `iter_tiled_full_frame_data` is
+regenerated: `Gen.tiledChannelCount`, `Gen.segmentationSopClasses`, `Gen.tiledAllowedSopClasses`, target TC10g; `TiledFull.channels` is
+that function of the raw attributes, no longer a number filled in by the harness): LABELMAP segmentation = 1, other segmentations = items
+of SegmentSequence, other images = NumberOfOpticalPaths if present, else items of OpticalPathSequence -/
+theorem tiled_full_channel_count (tf : TiledFull) :
+    (Gen.segmentationSopClasses.contains tf.source.sopClass = true → tf.source.segmentationType = "LABELMAP" → tf.channels = 1) ∧
+    (Gen.segmentationSopClasses.contains tf.source.sopClass = true → tf.source.segmentationType ≠ "LABELMAP" → tf.channels = tf.source.segments) ∧
+    (Gen.segmentationSopClasses.contains tf.source.sopClass = false → ∀ n, tf.source.declaredPaths = some n → tf.channels = n) ∧
+    (Gen.segmentationSopClasses.contains tf.source.sopClass = false → tf.source.declaredPaths = none → tf.channels = tf.source.pathItems) ∧
+    (∀ c ∈ Gen.segmentationSopClasses, c ∈ Gen.tiledAllowedSopClasses) :=
+  tiledChannels_spec tf
+
 /-- **frame order of a TILED_FULL image**: channels (optical paths / segments) outermost, then focal planes, then the tiles row by
 row with the tile column running fastest; `channels · planes · tile rows · tile columns` frames in all -/
 theorem tiled_full_frame_order (tf : TiledFull) (ch pl tr tc : Nat) (hch : ch < tf.channels) (hpl : pl < tf.npl) (htr : tr < tf.ntr)
@@ -950,13 +962,18 @@ theorem for_image_pairs_mutually_inverse (ds : ImageDs) (f : Option Int) (t : Bo
 /-! non-vacuity: a TILED_FULL slide image with 3 optical paths x 2 focal planes, 3 x 2 tiles (last tile row partial), no z origin -/
 
 def exSlidePlane : Plane := ⟨⟨43 / 2, 53 / 4, 0⟩, ⟨⟨0, -1, 0⟩, ⟨-1, 0, 0⟩⟩, 1 / 4, 1 / 2⟩
-def exTf : TiledFull := ⟨4, 6, 10, 12, 3, some 2⟩
+def exTf : TiledFull := ⟨4, 6, 10, 12, { sopClass := "1.2.840.10008.5.1.4.1.1.77.1.6", pathItems := 3 }, some 2⟩
 def exTiled : ImageDs :=
   { coord := some .slide, multiframe := true, shared := { measures := some ([1 / 4, 1 / 2], some (3 / 4)) }, tiledFull := some exTf,
     totalOrigin := some (43 / 2, 53 / 4, none), oriSlide := [0, -1, 0, -1, 0, 0] }
 example : TiledSlide exTiled exTf exSlidePlane none (some (3 / 4)) :=
-  ⟨rfl, rfl, rfl, rfl, rfl, rfl, rfl, by decide, by decide, by decide +kernel, by decide +kernel⟩
+  ⟨rfl, rfl, rfl, rfl, rfl, rfl, rfl, by decide, by decide, by decide, by decide +kernel, by decide +kernel⟩
 example : exTf.ntc = 2 ∧ exTf.ntr = 3 ∧ exTf.npl = 2 ∧ exTf.frames = 36 := by decide
+example : exTf.channels = 3 ∧
+    ({ exTf with source := { sopClass := "1.2.840.10008.5.1.4.1.1.66.7", segmentationType := "LABELMAP", segments := 5 } } : TiledFull).channels = 1 ∧
+    ({ exTf with source := { sopClass := "1.2.840.10008.5.1.4.1.1.66.4", segmentationType := "BINARY", segments := 5 } } : TiledFull).channels = 5 ∧
+    ({ exTf with source := { sopClass := "1.2.840.10008.5.1.4.1.1.77.1.6", declaredPaths := some 2, pathItems := 3 } } : TiledFull).channels = 2 := by
+  decide
 /-- frame 29 = third optical path (ch 2), second focal plane (pl 1), tile row 2, tile column 0 -/
 example : exTf.frameNumber 2 1 2 0 = 35 := by decide
 example : (pixToRefForImage exTiled (some 35) false).map (·.t) = .ok ⟨43 / 2 - 2, 53 / 4, 3 / 4⟩ := by decide +kernel
